@@ -1315,7 +1315,7 @@ func q06ConfErr(err error) string {
 		return "mismatch"
 	case strings.Contains(s, "signature verification failed"):
 		return "badsig"
-	case strings.Contains(s, "by the same eth key"): // only with tools/patches/c06_batch_confirm_key_once.patch
+	case strings.Contains(s, "by the same eth key"):
 		return "dupkey"
 	case strings.Contains(s, "duplicate signature"):
 		return "dup"
@@ -1458,6 +1458,45 @@ func (c *q06Case) genReg() {
 	c.opReg(valIdx, accts)
 }
 
+// genTakeover: validator X confirms a batch (or signs a message), rotates to a fresh key, validator Y
+// registers the address X released — spelled canonically or not — and replays X's confirmation / signature.
+func (c *q06Case) genTakeover() {
+	r := c.r.Rng
+	xi, yi := r.Intn(c.fx.n), r.Intn(c.fx.n)
+	if xi == yi {
+		return
+	}
+	addr, raw, ok := c.ownAccount(xi)
+	if !ok || addr%4 != 0 || raw%4 != 0 {
+		return
+	}
+	onBatch := r.Intn(2) == 0
+	var nonce, id uint64
+	if onBatch {
+		nonce = c.opBatchPut(4 * (1 + r.Intn(c.fx.n)))
+		c.opBatchConfirm(nonce, xi, addr, raw/4, "c")
+	} else {
+		id = c.opPut("s", 1, c.fx.valID[xi], addr, true)
+		c.opSign(id, xi, addr, raw/4, "c")
+	}
+	c.track()
+	e := c.fx.n + 1 + r.Intn(q06ExtraKeys)
+	if c.opReg(xi, []q06Acct{{chain: 0, addr: 4 * e, raw: 4 * e}}) != "ok" {
+		return
+	}
+	spell := []int{0, 0, 1, 2}[r.Intn(4)]
+	if c.opReg(yi, []q06Acct{{chain: 0, addr: addr + spell, raw: raw + spell}}) != "ok" {
+		return
+	}
+	c.track()
+	if onBatch {
+		c.opBatchConfirm(nonce, yi, addr+spell, raw/4, "c")
+	} else {
+		c.opSign(id, yi, addr+spell, raw/4, "c")
+	}
+	c.r.Stat("op.takeover")
+}
+
 func (c *q06Case) genPut() uint64 {
 	r := c.r.Rng
 	kind := []string{"s", "s", "s", "u", "u", "v", "o"}[r.Intn(7)]
@@ -1586,6 +1625,8 @@ func (c *q06Case) runOps(focus string, nOps int) {
 					addr = addr/4*4 + r.Intn(3) // other spelling of the own address
 				}
 				c.opBatchConfirm(n, valIdx, addr, by, ref)
+			case x < 98:
+				c.genTakeover()
 			default:
 				if len(c.nonces) > 0 {
 					c.opBatchGas(c.nonces[r.Intn(len(c.nonces))], []uint64{21000, 300000, 0, 1 << 40}[r.Intn(4)])
